@@ -51,6 +51,37 @@ func (fr *Frame) intercept(st *State, fn *ssa.Function, pkg string, args []Val, 
 		full = pkg + "." + recv + "." + name
 	}
 	lockState := func() *Term { return ex.get(st, "LockState", ArraySort(SRef, SInt)) }
+	if name == "decodeMessage" && ex.w.inScope(pkg) && len(args) == 2 && args[0].T != nil {
+		// msgpack decoding is reflection-driven library code: modelled as a deterministic
+		// function of the bytes (dec_T / dec_ok_T); decoded values are arbitrary inhabitants of T
+		l := args[1].L
+		if l == nil && args[1].T != nil && ex.boxedLocs != nil {
+			l = ex.boxedLocs[args[1].T.Op]
+		}
+		if l == nil && args[1].T != nil {
+			// pointer to a heap-allocated variable, boxed into the `any` parameter
+			if call, ok := instr.(*ssa.Call); ok && len(call.Call.Args) == 2 {
+				if mi, ok := call.Call.Args[1].(*ssa.MakeInterface); ok {
+					if _, isPtr := mi.X.Type().Underlying().(*types.Pointer); isPtr {
+						l = ex.locFromPtr(Val{T: unboxArg(args[1].T)}, mi.X.Type())
+					}
+				}
+			}
+		}
+		if l != nil && (l.Comp != "" || len(l.Keys) == 1) {
+			ex.trusted["decodeMessage: deterministic function of the bytes (uninterpreted dec_T, dec_ok_T); decoded values arbitrary inhabitants of T"] = true
+			ok, val := ex.decodeTerms(st, args[0].T, l.Elem)
+			if ex.ghost == 0 {
+				ex.assume(st, ex.typeFacts(val, l.Elem))
+				fr.loadFacts(st, val, l.Elem)
+			}
+			junk := ex.ctx.Fresh("decjunk", val.Sort)
+			ex.store(st, l, Ite(ok, val, junk))
+			e := ex.ctx.Fresh("decerr", SIfc)
+			ex.assume(st, Neq(e, V("iface_nil", SIfc)))
+			return Val{T: Ite(ok, V("iface_nil", SIfc), e)}, true
+		}
+	}
 	switch full {
 	case "sync.Mutex.Lock", "sync.RWMutex.Lock":
 		ex.trusted["sync locks: mutual exclusion as specified"] = true
@@ -118,6 +149,17 @@ func (fr *Frame) intercept(st *State, fn *ssa.Function, pkg string, args []Val, 
 		return Val{T: Ite(App("<=", SBool, args[0].T, args[1].T), args[0].T, args[1].T)}, true
 	case "math.Abs":
 		return Val{T: Ite(App(">=", SBool, args[0].T, RealLit("0.0")), args[0].T, App("-", SReal, args[0].T))}, true
+	}
+	if pkg == "slices" && fn.Origin() != nil && fn.Origin().Name() == "Contains" && len(args) == 2 && args[0].T != nil && args[1].T != nil {
+		// slices.Contains by its definition: some element equals v
+		if sl, ok := fn.Params[0].Type().Underlying().(*types.Slice); ok {
+			ex.trusted["slices.Contains(s, v): exists i < len(s) with s[i] == v"] = true
+			c, cs := ex.elemsComp(sl.Elem())
+			content := Select(ex.get(st, c, cs), SArr(args[0].T))
+			ib := Bound{Name: ex.boundName("ci"), Sort: SInt}
+			iv := V(ib.Name, SInt)
+			return Val{T: Exists([]Bound{ib}, And(Le(IntLit(0), iv), Lt(iv, SLen(args[0].T)), Eq(ex.slAt(content, SOff(args[0].T), iv), args[1].T)))}, true
+		}
 	}
 	if hasPkgPrefix(pkg, noEffectPkgs) {
 		ex.trusted["logging/metrics/runtime calls: no effect on modelled state"] = true
